@@ -1,6 +1,7 @@
 import Anndb.Model.Recovery
 import Anndb.Model.RaftLoop
 import Anndb.Proofs.Quorum
+import Anndb.Proofs.TornTail
 import Anndb.Generated
 /-!
 # C03 — acknowledged writes survive a crash at any instant and restart
@@ -209,4 +210,54 @@ def demo : St :=
 
 example : demo.acked = [1, 2, 3] ∧ demo.applied = [1, 2, 3] ∧ demo.snap = [1, 2] ∧ demo.log = [3] := by decide
 
+/-! ## a crash in the middle of an append to the store's value log (D35)
+
+The file holds the records written so far — every acknowledged write among them, an acknowledgement
+follows the completed write — and then the first `k` bytes of the record whose write the kill
+interrupted, for any `k` from nothing to all of it. -/
+
+open Anndb.TornTail
+
+/-- **C03 (crash at any instant, also inside a write).** Opened the way `server.go` opens its store,
+the file left by a kill after any number of bytes of the append in progress yields every record
+written before, plus the interrupted one exactly when all of it had reached the file. -/
+theorem reopen_after_crash_at_any_byte (written : List Rec) (next : Rec) (k : Nat) (hk : k ≤ (encode next).length) :
+    reopen true (encodeAll written ++ (encode next).take k)
+      = some (written ++ if k = (encode next).length then [next] else []) := by
+  simp only [reopen, Bool.or_true, if_true, parse_encodeAll_append]
+  by_cases hfull : k = (encode next).length
+  · subst hfull
+    have h := parse_encodeAll_append [next] []
+    simp only [encodeAll, List.append_nil, parse_nil] at h
+    simp [List.take_length, h]
+  · by_cases h0 : k = 0
+    · subst h0; simp [parse_nil, hfull]
+    · rw [parse_torn next k (by omega) (by omega)]; simp [hfull]
+
+/-- without the truncation a kill strictly inside a record leaves a store that refuses to open: the
+node does not come back, with all its acknowledged writes on disk -/
+theorem torn_record_blocks_restart_without_truncate (written : List Rec) (next : Rec) (k : Nat)
+    (h0 : 0 < k) (hk : k < (encode next).length) :
+    reopen false (encodeAll written ++ (encode next).take k) = none := by
+  simp [reopen, parse_encodeAll_append, parse_torn next k h0 hk]
+
+/-- the option in the code (regenerated from `server.go`) -/
+theorem store_cuts_torn_tail_in_code : Generated.serverStoreCutsTornTail = true := by decide
+
+/-- the two together: the server's store, as the code opens it, comes back after a kill at any byte -/
+theorem server_store_reopens (written : List Rec) (next : Rec) (k : Nat) (hk : k ≤ (encode next).length) :
+    ∃ rs, reopen Generated.serverStoreCutsTornTail (encodeAll written ++ (encode next).take k) = some rs ∧
+      written <+: rs := by
+  rw [store_cuts_torn_tail_in_code, reopen_after_crash_at_any_byte written next k hk]
+  exact ⟨_, rfl, List.prefix_append _ _⟩
+
+/-- non-vacuity: two records on disk, the third torn after two of its four bytes -/
+example : reopen true (encodeAll [[7, 8], [9]] ++ (encode [1, 2, 3]).take 2) = some [[7, 8], [9]] := by
+  rw [reopen_after_crash_at_any_byte [[7, 8], [9]] [1, 2, 3] 2 (by simp [encode])]
+  simp [encode]
+
+example : reopen false (encodeAll [[7, 8], [9]] ++ (encode [1, 2, 3]).take 2) = none :=
+  torn_record_blocks_restart_without_truncate [[7, 8], [9]] [1, 2, 3] 2 (by omega) (by simp [encode])
+
 end Anndb.Recovery
+
